@@ -1,34 +1,10 @@
 use vverif::sim::*;
-use vpncloud::payload::Frame;
 fn main() {
     install_panic_hook();
     thread_setup();
-    let t = std::time::Instant::now();
-    let mut sim: NetSim<Frame> = NetSim::new();
-    let mut cfg = base_config();
-    cfg.mode = vpncloud::types::Mode::Switch;
-    let a = sim.add_node(&cfg, false);
-    let b = sim.add_node(&cfg, false);
-    let c = sim.add_node(&cfg, false);
-    println!("nodes created in {:?}", t.elapsed());
-    sim.record = true;
-    let (ab, ac) = (sim.addr(b), sim.addr(c));
-    sim.connect(a, ab);
-    sim.connect(a, ac);
-    sim.settle();
-    println!("a-b {} b-a {} a-c {} b-c {}", sim.is_connected(a, b), sim.is_connected(b, a), sim.is_connected(a, c), sim.is_connected(b, c));
-    sim.run(130);
-    println!("after 130s all connected: {} wire log {} panics {} hkerr {:?}", sim.all_connected(), sim.wire_log.len(), sim.panics.len(), sim.housekeep_errors);
-    let f = eth_frame([2, 0, 0, 0, 0, 2], [2, 0, 0, 0, 0, 1], None, b"hello world payload");
-    sim.put_payload(a, f.clone());
-    sim.settle();
-    println!("b got {:?} c got {:?}", sim.take_iface(b).len(), sim.take_iface(c).len());
-    let f2 = eth_frame([2, 0, 0, 0, 0, 1], [2, 0, 0, 0, 0, 2], None, b"reply");
-    sim.put_payload(b, f2);
-    sim.settle();
-    println!("a got {:?} c got {:?}", sim.take_iface(a).len(), sim.take_iface(c).len());
-    println!("{}", sim.snapshot(a));
-    let t = std::time::Instant::now();
-    sim.run(1000);
-    println!("1000 ticks of 3-node mesh in {:?}, connected {}", t.elapsed(), sim.all_connected());
+    for _ in 0..8 {
+        let sim = vverif::props::c09::build_mesh(3, 1);
+        let kinds: Vec<String> = sim.wire_log.iter().map(|d| format!("{}>{}:{}", sim.index[&d.src], sim.index[&d.dst], if d.data.first() == Some(&0xff) { format!("hs{}", d.data[12]) } else { format!("s{}", d.data.len()) })).collect();
+        println!("{} {:?}", sim.wire_log.len(), &kinds[..kinds.len().min(40)]);
+    }
 }
